@@ -9,6 +9,8 @@ CfgAll   == {<<i, m, cap>> \in {1, 2} \X {2, 4} \X {0, 1, 2} : TRUE}
 CfgTrace == Nat \X Nat \X Nat
 PTrace == <<1000, 1000, 1000, 1000, 1000, 1000>>
 P3   == <<3>>
+P4   == <<4>>
+CfgOne4 == {<<1, 4, 0>>}
 CfgOne == {<<1, 2, 0>>}
 P1   == <<1>>
 P2   == <<2>>
